@@ -61,6 +61,20 @@ def entry_ok(tag, v):
 
 
 @spec
+def renders(s, bits):
+    """the string s is the concatenation of the 1-character bits"""
+    return len(s) == len(bits) and forall(int, lambda j: implies(0 <= j and j < len(bits), s[j] == nth(bits, j)))
+
+
+@spec
+def rendered(s, bits):
+    """OPAQUE form of renders(s, bits): an uninterpreted predicate whose definition is renders(s, bits).  The
+    definition is unfolded (clauses named D_*) only where a proof needs it - at the return point of
+    to_register_bits - and stays folded in the multi-shot functions, whose proofs only pass the fact along."""
+    return ghost("rendered", "bool", s, bits)
+
+
+@spec
 def RP(entries, i):
     return ghost("replay", "Dict[str, Seq[str]]", entries, i)
 
@@ -129,6 +143,10 @@ class to_register_bits:
             "P_bits": forall(str, lambda q: implies(has(result, q), len(get(result, q)) == len(get(final, q))
                                                     and forall(int, lambda j: implies(0 <= j and j < len(get(final, q)), get(result, q)[j] == nth(get(final, q), j))))),
             "P_chars": forall(str, lambda q: implies(has(result, q), all01(get(final, q)))),
+            # the same statement in the form callers use (rendered is opaque for them, see below)
+            "P_lengths": forall(str, lambda q: implies(has(result, q), len(get(result, q)) == len(get(final, q)))),
+            "D_rendered": forall(str, lambda q: rendered(get(result, q), get(final, q)) == renders(get(result, q), get(final, q))),
+            "P_rendered": forall(str, lambda q: implies(has(result, q), rendered(get(result, q), get(final, q)))),
         }
 
 
@@ -185,9 +203,10 @@ def shot_ok(shot):
 
 
 @spec
-def renders(s, bits):
-    """the string s is the concatenation of the 1-character bits"""
-    return len(s) == len(bits) and forall(int, lambda j: implies(0 <= j and j < len(bits), s[j] == nth(bits, j)))
+def accepted(shot):
+    """OPAQUE form of shot_ok(shot) (every entry of the shot is acceptable); unfolded for the shot at the loop
+    cursor only (clause D_accepted), which is where to_register_bits is called."""
+    return ghost("shot_accepted", "bool", shot.entries)
 
 
 @spec
@@ -198,10 +217,19 @@ def SI(shots, i):
 
 @spec
 def si_step(S0, S1, F, i):
-    """S1 is S0 after shot number i, whose register file is F: i is appended for every register of the shot."""
+    """S1 is S0 after shot number i, whose register file is F: i is appended for every register of the shot
+    (the equation, and the same fact element by element)."""
     return (forall(str, lambda q: has(S1, q) == (has(S0, q) or has(F, q)))
             and forall(str, lambda q: implies(has(S0, q) and not has(F, q), eq(get(S1, q), get(S0, q))))
-            and forall(str, lambda q: implies(has(F, q), eq(get(S1, q), concat(ite(has(S0, q), get(S0, q), empty_seq(int)), Seq(int, i))))))
+            and forall(str, lambda q: implies(has(F, q), eq(get(S1, q), concat(ite(has(S0, q), get(S0, q), empty_seq(int)), Seq(int, i)))))
+            and forall(str, lambda q: implies(has(F, q), len(get(S1, q)) == ite(has(S0, q), len(get(S0, q)), 0) + 1
+                                              and nth(get(S1, q), len(get(S1, q)) - 1) == i
+                                              and forall(int, lambda k: implies(0 <= k and k < len(get(S1, q)) - 1, nth(get(S1, q), k) == nth(get(S0, q), k)))))
+            # where each element of a new list comes from: it is i (the last one, for a register of the shot) or the same element of the old list
+            and forall(str, lambda q: implies(has(S1, q), forall(int, lambda k: implies(
+                0 <= k and k < len(get(S1, q)),
+                (has(F, q) and k == len(get(S1, q)) - 1 and nth(get(S1, q), k) == i)
+                or (has(S0, q) and k < len(get(S0, q)) and nth(get(S1, q), k) == nth(get(S0, q), k)))))))
 
 
 @spec
@@ -214,7 +242,8 @@ def si_wf(shots, S, i):
 @spec
 def strings_of(shots, S, D, q, n):
     """the first n strings D holds for register q are those of the shots S lists for it, in that order"""
-    return forall(int, lambda k: implies(0 <= k and k < n, renders(nth(get(D, q), k), get(FIN(nth(shots, nth(get(S, q), k))), q))))
+    return forall(int, lambda k: implies(0 <= k and k < n, rendered(nth(get(D, q), k), get(FIN(nth(shots, nth(get(S, q), k))), q))
+                                         and len(nth(get(D, q), k)) == len(get(FIN(nth(shots, nth(get(S, q), k))), q))))
 
 
 @spec
@@ -229,27 +258,43 @@ def si_sorted(S):
 
 @spec
 def names_differ(shots):
-    return exists(int, lambda j: 0 < j and j < len(shots) and exists(str, lambda q: has(FIN(nth(shots, j)), q) != has(FIN(nth(shots, 0)), q)))
+    """some shot after the first has a register set different from the registers of the shots before it
+    (equivalent to: not all shots have the same register set)"""
+    return exists(int, lambda j: 0 < j and j < len(shots) and exists(str, lambda q: has(FIN(nth(shots, j)), q) != has(SI(shots, j), q)))
+
+
+@spec
+def first_len(shots, j, q):
+    """length of register q in the first shot (before shot j) that writes it"""
+    return len(get(FIN(nth(shots, nth(get(SI(shots, j), q), 0))), q))
+
+
+@spec
+def uniform(shots, S, j, q):
+    """register q has the same length in every shot S lists for it (namely the length in the first of them)"""
+    return forall(int, lambda k: implies(0 <= k and k < len(get(S, q)), len(get(FIN(nth(shots, nth(get(S, q), k))), q)) == first_len(shots, j, q)))
 
 
 @spec
 def lengths_differ(shots):
-    return exists(int, lambda j1: exists(int, lambda j2: exists(str, lambda q:
-        0 <= j1 and j1 < j2 and j2 < len(shots) and has(FIN(nth(shots, j1)), q) and has(FIN(nth(shots, j2)), q)
-        and len(get(FIN(nth(shots, j1)), q)) != len(get(FIN(nth(shots, j2)), q)))))
+    """some shot writes a register with a length different from the one of the first shot that wrote it
+    (equivalent to: the strings of some register do not all have the same length)"""
+    return exists(int, lambda j: exists(str, lambda q: 0 <= j and j < len(shots) and has(FIN(nth(shots, j)), q) and has(SI(shots, j), q)
+                                        and len(get(FIN(nth(shots, j)), q)) != first_len(shots, j, q)))
 
 
 @contract("hugr.qsystem.result.QsysResult.register_bitstrings", props=["C19"])
 class register_bitstrings:
     types = {"strict_names": "bool", "strict_lengths": "bool"}
     returns = "Dict[str, Seq[str]]"
+    callee_clauses = {"hugr.qsystem.result.QsysShot.to_register_bits": ["P_registers", "P_lengths", "P_rendered"]}
 
     def modifies(self, strict_names, strict_lengths):
         return []
 
     def raises(self, strict_names, strict_lengths):
         rs = self.results
-        return {ValueError: exists(int, lambda j: 0 <= j and j < len(rs) and not shot_ok(nth(rs, j)))
+        return {ValueError: exists(int, lambda j: 0 <= j and j < len(rs) and not accepted(nth(rs, j)))
                 or (strict_names and names_differ(rs))
                 or (strict_lengths and lengths_differ(rs))}
 
@@ -259,42 +304,45 @@ class register_bitstrings:
         return {
             "A_si_0": forall(str, lambda q: not has(SI(rs, 0), q)),
             "A_si_step": implies(_i1 < len(rs), si_step(S, SI(rs, _i1 + 1), FIN(nth(rs, _i1)), _i1)),
-            "accepted_so_far": forall(int, lambda j: implies(0 <= j and j < _i1, shot_ok(nth(rs, j)))),
+            "D_accepted": implies(_i1 < len(rs), accepted(nth(rs, _i1)) == shot_ok(nth(rs, _i1))),
+            "accepted_so_far": forall(int, lambda j: implies(0 <= j and j < _i1, accepted(nth(rs, j)))),
             "si_wf": si_wf(rs, S, _i1),
             "registers": forall(str, lambda q: has(shot_dct, q) == has(S, q)),
             "lengths": forall(str, lambda q: implies(has(shot_dct, q), len(get(shot_dct, q)) == len(get(S, q)))),
             "strings": forall(str, lambda q: implies(has(shot_dct, q), strings_of(rs, S, shot_dct, q, len(get(S, q))))),
-            "covers": forall(int, lambda j: forall(str, lambda q: implies(0 <= j and j < _i1 and has(FIN(nth(rs, j)), q), has(S, q) and listed(get(S, q), j)))),
-            "si_sorted": si_sorted(S),
-            "names_so_far": implies(strict_names, forall(int, lambda j: forall(str, lambda q: implies(0 <= j and j < _i1, has(FIN(nth(rs, j)), q) == has(S, q))))),
+            "names_so_far": implies(strict_names, forall(int, lambda j: forall(str, lambda q: implies(0 < j and j < _i1, has(FIN(nth(rs, j)), q) == has(SI(rs, j), q))))),
             "lengths_so_far": implies(strict_lengths, forall(int, lambda j: forall(str, lambda q: implies(
-                0 <= j and j < _i1 and has(FIN(nth(rs, j)), q), len(get(FIN(nth(rs, j)), q)) == len(get(FIN(nth(rs, nth(get(S, q), 0))), q)))))),
+                0 <= j and j < _i1 and has(FIN(nth(rs, j)), q) and has(SI(rs, j), q), len(get(FIN(nth(rs, j)), q)) == first_len(rs, j, q))))),
+            # hence (makes the proof independent of *which* earlier string the code compares with)
+            "uniform_so_far": implies(strict_lengths, forall(str, lambda q: implies(has(S, q), uniform(rs, S, _i1, q)))),
         }
 
-    def loop_2(self, strict_names, strict_lengths, shot_dct, bitstrs, _i1, _i2, _seq2):
+    def loop_2(self, strict_names, strict_lengths, shot_dct, bitstrs, _i1, _done2):
         rs = self.results
         F = FIN(nth(rs, _i1))
         S = SI(rs, _i1)
-        done = lambda q: exists(int, lambda m: 0 <= m and m < _i2 and nth(_seq2, m) == q)
+        S1 = SI(rs, _i1 + 1)
+        done = lambda q: has(_done2, q)
         return {
-            "A_si_step": si_step(S, SI(rs, _i1 + 1), F, _i1),
+            "A_si_step": si_step(S, S1, F, _i1),
             "in_range": 0 <= _i1 and _i1 < len(rs),
-            "shot_result": forall(str, lambda q: has(bitstrs, q) == has(F, q) and implies(has(bitstrs, q), renders(get(bitstrs, q), get(F, q)))),
-            "accepted_so_far": forall(int, lambda j: implies(0 <= j and j <= _i1, shot_ok(nth(rs, j)))),
+            "shot_result": forall(str, lambda q: has(bitstrs, q) == has(F, q) and implies(has(bitstrs, q), rendered(get(bitstrs, q), get(F, q)) and len(get(bitstrs, q)) == len(get(F, q)))),
+            "accepted_so_far": forall(int, lambda j: implies(0 <= j and j <= _i1, accepted(nth(rs, j)))),
             "si_wf": si_wf(rs, S, _i1),
             "registers": forall(str, lambda q: has(shot_dct, q) == (has(S, q) or done(q))),
-            "lengths_done": forall(str, lambda q: implies(done(q), len(get(shot_dct, q)) == ite(has(S, q), len(get(S, q)), 0) + 1)),
-            "lengths_rest": forall(str, lambda q: implies(has(S, q) and not done(q), len(get(shot_dct, q)) == len(get(S, q)))),
-            "strings": forall(str, lambda q: implies(has(S, q), strings_of(rs, S, shot_dct, q, len(get(S, q))))),
-            "appended": forall(str, lambda q: implies(done(q), nth(get(shot_dct, q), len(get(shot_dct, q)) - 1) == get(bitstrs, q))),
-            "covers": forall(int, lambda j: forall(str, lambda q: implies(0 <= j and j < _i1 and has(FIN(nth(rs, j)), q), has(S, q) and listed(get(S, q), j)))),
-            "si_sorted": si_sorted(S),
-            "names_so_far": implies(strict_names, forall(int, lambda j: forall(str, lambda q: implies(0 <= j and j < _i1, has(FIN(nth(rs, j)), q) == has(S, q))))
+            "done_keys": forall(str, lambda q: implies(done(q), has(F, q))),
+            # registers of this shot already processed: their lists are those of the next ghost state S1
+            "strings_done": forall(str, lambda q: implies(done(q), len(get(shot_dct, q)) == len(get(S1, q)) and strings_of(rs, S1, shot_dct, q, len(get(S1, q))))),
+            # the others still are as the current ghost state S says
+            "strings_rest": forall(str, lambda q: implies(has(S, q) and not done(q), len(get(shot_dct, q)) == len(get(S, q)) and strings_of(rs, S, shot_dct, q, len(get(S, q))))),
+            "names_so_far": implies(strict_names, forall(int, lambda j: forall(str, lambda q: implies(0 < j and j < _i1, has(FIN(nth(rs, j)), q) == has(SI(rs, j), q))))
                                     and implies(_i1 > 0, forall(str, lambda q: has(F, q) == has(S, q)))),
             "lengths_so_far": implies(strict_lengths,
-                                      forall(int, lambda j: forall(str, lambda q: implies(0 <= j and j < _i1 and has(FIN(nth(rs, j)), q),
-                                                                                          len(get(FIN(nth(rs, j)), q)) == len(get(FIN(nth(rs, nth(get(S, q), 0))), q)))))
-                                      and forall(str, lambda q: implies(done(q) and has(S, q), len(get(F, q)) == len(get(FIN(nth(rs, nth(get(S, q), 0))), q))))),
+                                      forall(int, lambda j: forall(str, lambda q: implies(0 <= j and j < _i1 and has(FIN(nth(rs, j)), q) and has(SI(rs, j), q),
+                                                                                          len(get(FIN(nth(rs, j)), q)) == first_len(rs, j, q))))
+                                      and forall(str, lambda q: implies(done(q) and has(S, q), len(get(F, q)) == first_len(rs, _i1, q)))),
+            "uniform_so_far": implies(strict_lengths, forall(str, lambda q: implies(has(S, q), uniform(rs, S, _i1, q)))
+                                      and forall(str, lambda q: implies(done(q), uniform(rs, S1, _i1 + 1, q)))),
         }
 
     def ensures(self, strict_names, strict_lengths, result):
@@ -305,7 +353,44 @@ class register_bitstrings:
             "P_one_string_per_shot": forall(str, lambda q: implies(has(result, q), len(get(result, q)) == len(get(S, q)))),
             # the k-th string of a register is the rendering of that register in the k-th shot that writes it
             "P_bitstrings": forall(str, lambda q: implies(has(result, q), strings_of(rs, S, result, q, len(get(S, q))))),
-            "P_shot_order": si_sorted(S),
-            "P_all_shots": forall(int, lambda j: forall(str, lambda q: implies(0 <= j and j < len(rs) and has(FIN(nth(rs, j)), q), has(S, q) and listed(get(S, q), j)))),
             "P_only_shots_with_the_register": si_wf(rs, S, len(rs)),
+            # ghost definition: the dictionary returned is named RBS(shots, flags) (used by register_counts to say
+            # "the counters of exactly those lists"; consistent because none of these functions writes the heap)
+            "A_named": eq(result, RBS(rs, strict_names, strict_lengths)),
+        }
+
+
+@spec
+def RBS(shots, strict_names, strict_lengths):
+    return ghost("register_bitstrings_of", "Dict[str, Seq[str]]", shots, strict_names, strict_lengths)
+
+
+@spec
+def counter_of(strings):
+    """collections.Counter of a list of strings (the library function, uninterpreted)"""
+    return ghost("counter_of_String", "Dict[str, int]", strings)
+
+
+@contract("hugr.qsystem.result.QsysResult.register_counts", props=["C19"])
+class register_counts:
+    types = {"strict_names": "bool", "strict_lengths": "bool"}
+    returns = "Dict[str, Dict[str, int]]"
+    callee_clauses = {"hugr.qsystem.result.QsysResult.register_bitstrings": ["P_registers", "A_named"]}
+
+    def modifies(self, strict_names, strict_lengths):
+        return []
+
+    def raises(self, strict_names, strict_lengths):
+        rs = self.results
+        return {ValueError: exists(int, lambda j: 0 <= j and j < len(rs) and not accepted(nth(rs, j)))
+                or (strict_names and names_differ(rs))
+                or (strict_lengths and lengths_differ(rs))}
+
+    def ensures(self, strict_names, strict_lengths, result):
+        rs = self.results
+        B = RBS(rs, strict_names, strict_lengths)
+        return {
+            # one counter per register of register_bitstrings(same flags), counting exactly that register's list
+            "P_registers": forall(str, lambda q: has(result, q) == has(B, q)),
+            "P_counts": forall(str, lambda q: implies(has(result, q), eq(get(result, q), counter_of(get(B, q))))),
         }
